@@ -1,6 +1,6 @@
 """Correspondence on the substitution view (resulting schema or exception class) and shared case batches."""
 from . import encode, gen_value, model, scripted_random as SR, sexp, valcases
-from .common import d42  # noqa: F401
+from .common import d42, safe_repr  # noqa: F401
 from d42 import substitute
 
 
@@ -283,6 +283,34 @@ def subclass_and_degenerate_cases(ctx):
               schema.list(schema.dict({})), schema.dict({"l": schema.list([])})):
         for v in ({}, {"a": 1}, [], [1], {"in": {}}, {"in": {"a": 1}}, [{}], [{"a": 1}], {"o": {}}, {"o": {"x": 1}}, {"l": []}, {"l": [1]}, 5):
             cases.append(SubCase(s, v, v, "degenerate-container"))
+    return cases
+
+
+def defaulting_dict_subst_cases(ctx):
+    """directed: dict subclasses whose lookup of an ABSENT key answers a default (Counter, defaultdict, __missing__) as the
+    substituted value, giving only part of the declared keys: a key that was not given stays as declared"""
+    import collections
+    from d42 import optional, schema
+    from .hostile import Missing
+    cases = []
+    shapes = [lambda: schema.dict({"passed": schema.int, "failed": schema.int, optional("skipped"): schema.int}),
+              lambda: schema.dict({"passed": schema.int.min(0), "tags": schema.list(schema.str), ...: ...}),
+              lambda: schema.dict({"r": schema.dict({"passed": schema.int, optional("failed"): schema.int})}),
+              lambda: schema.list(schema.dict({"passed": schema.int, optional("failed"): schema.int})),
+              lambda: schema.any(schema.dict({"passed": schema.int, "failed": schema.int}), schema.none)]
+    vals = [lambda: collections.Counter(passed=3), lambda: collections.defaultdict(int, passed=3), lambda: collections.defaultdict(list, passed=3),
+            lambda: Missing(0, {"passed": 3}), lambda: Missing("x", {"passed": 3}), lambda: collections.Counter(), lambda: collections.OrderedDict(passed=3)]
+    for mk in shapes:
+        for mv in vals:
+            s = mk()
+            v = mv()
+            name = type(s).__name__
+            if name == "ListSchema":
+                v = [v]
+            elif safe_repr(s).startswith("schema.dict({\n    'r'"):
+                v = {"r": v}
+            full = {"passed": 3, "failed": 0, "tags": []}
+            cases.append(SubCase(s, full, v, "defaulting-dict-value"))
     return cases
 
 
